@@ -816,3 +816,58 @@ PROPS["C10"]["level_text"] = "Proof, with the recorded findings of the compresse
 # ---- C04: texts brought up to date with the execution-path theorems ----
 PROPS["C04"]["open"] = ["the CLVM execution costs themselves are clvmr's (external): in the theorems every interpreter run is a universally quantified value; interned_vbytes is a model function (Model/Generator.lean) compared with the code on every INTERNED_GENERATOR case"]
 PROPS["C04"]["level_text"] = PROPS["C04"]["level_text"] + (" (4) the same for every entry point: native_limit_exact / legacy_limit_exact / runSpendbundle_limit_exact (the limit is exact through the byte cost, the generator run, every puzzle run and every spend's conditions) and native_cost_decomposition / runSpendbundle_cost_decomposition (reported cost = byte cost + execution cost + condition cost, exactly). Correspondence: every accepted case is re-run at its own cost and one below; accepted bundles and generators are re-run with the limit at every stage boundary of the countdown.")
+
+# ---- C15: model brought up to the repaired BlsCache::aggregate_verify (merged from the prover) ----
+
+# ---- C15 after the repair 601e785b (BlsCache::aggregate_verify rejects the infinity / invalid key):
+# the model carries the invalid_key flag, the driver prints the model's own cache verdict,
+# InfFull / inf_witness* / inf_full_false / inf_partial are gone, inf_full and the full agreement
+# of the cache-assisted path with aggregate_verify are theorems.
+PROPS["C15"]["theorems"] = [
+  "ChiaModel.C15.cap_invariant",
+  "ChiaModel.C15.cap_invariant_new",
+  "ChiaModel.C15.new_zero",
+  "ChiaModel.C15.cap_zero_breaks",
+  "ChiaModel.C15.keys_nodup",
+  "ChiaModel.C15.cache_sound_inv",
+  "ChiaModel.C15.cache_sound_inv_or_collision",
+  "ChiaModel.C15.history_sound",
+  "ChiaModel.C15.transparent",
+  "ChiaModel.C15.transparent_prefix",
+  "ChiaModel.C15.cacheVerify_transparent",
+  "ChiaModel.C15.inf_full",
+  "ChiaModel.C15.inf_full_sched",
+  "ChiaModel.C15.inf_full_prefix",
+  "ChiaModel.C15.gt_flag_eq_plain",
+  "ChiaModel.C15.cache_agrees_with_plain",
+  "ChiaModel.C15.cache_agrees_with_plain_sched",
+  "ChiaModel.C15.agree_noinf",
+  "ChiaModel.C15.agree_noinf_sched",
+  "ChiaModel.C15.gt_noinf",
+  "ChiaModel.C15.aggregateVerify_spec",
+  "ChiaModel.C15.verify_spec",
+  "ChiaModel.C15.ideal_correct",
+  "ChiaModel.C15.inf_all_paths",
+  "ChiaModel.C15.former_witness_rejected",
+  "ChiaModel.C15.pairing_convention"
+]
+
+PROPS["C15"]["open"] = [
+  "public keys outside the prime-order subgroup (!PublicKey::is_valid(); reachable only through from_bytes_unchecked) are not representable in the scalar model (a key IS its scalar), so the second disjunct of the repaired check `pk.is_inf() || !pk.is_valid()` is mirrored by Pair.isInf alone; such keys are outside every theorem and are covered by the correspondence runs only (the harness makes its keys from seeds, plus the infinity key)",
+  "aggregate_verify_gt over precomputed pairings and aggregate_pairing cannot see the keys: with an infinity key they are not claimed to agree with aggregate_verify (gt_noinf / pairing_convention carry the no-infinity hypothesis; aggregate_pairing with an infinity key is reported informationally only)"
+]
+
+PROPS["C15"]["level_text"] = "Proof: over an executable ideal-BLS model (keys = known scalars, hashes = formal generators, G2/GT = normalised formal sums) of the five verifiers as signature.rs composes the primitives, the FIFO cache with put exactly as coded, and a lock-granularity thread model of BlsCache as repaired in 601e785b (per-call flag invalid_key, set for every pair with the infinity key before the lookup, hit or miss; verdict = aggregate_verify_gt(sig, yielded pairings) && !invalid_key; the identity pairing of an infinity key still enters the cache), Lean proves for all capacities, contents, pair lists, signatures, call lists and schedules: (1) cap_invariant - len <= capacity after every atomic step of every schedule (incl. re-insert at capacity; capacity 0 unconstructible and shown necessary); (2) cache_sound_inv - every entry maps sha256(pk|m) to e(pk,H(pk|m)) is preserved by every step given truthful updates, with CollisionFree over the finitely many keys used as explicit hypothesis/disjunct; (3) transparent - every call returns and each cache-assisted verdict = aggregate_verify_gt(sig, true pairings) && no key is infinity, independent of capacity, prior contents, evictions and interleaving; (4) agree_noinf / aggregateVerify_spec / verify_spec / ideal_correct - without an infinity key all paths return the same verdict, true iff sig = sum sk_i H(pk_i|m_i); aggregate_verify and verify return false with an infinity key; aggregate_pairing under its (pk_i,H_i)...,(-g,sig) convention = aggregate_verify_gt (pairing_convention, via canonicity of normal forms: a - b = 0 <-> a = b); (5) the former defect and its repair: before 601e785b BlsCache::aggregate_verify never looked at the keys and accepted pair lists containing the infinity key (e(inf,H) = 1 drops out of the product); the model then carried a kernel-checked negation witness (inf_full_false). With the repaired code mirrored in the model: inf_full / inf_full_sched / inf_full_prefix - a cache-assisted verification of a list containing the infinity key returns false on EVERY cache (no soundness, collision or capacity hypothesis), alone, in every schedule and at every cut of every schedule; cache_agrees_with_plain(_sched) - on a sound cache with CollisionFree the cache-assisted verdict equals aggregate_verify (hence the prescribed verdict) for every pair list and signature, with NO no-infinity hypothesis, alone and for every concurrent call in every interleaving (via gt_flag_eq_plain: aggregate_verify_gt over the true pairings && no infinity key = aggregate_verify); inf_all_paths - with an infinity key every key-aware path returns false; former_witness_rejected - the two inputs that used to be accepted are rejected by the model of the current code (kernel evaluation), the identity pairing still being cached. The driver prints the model's own cache verdict (no substitution of the prescription)."
+
+# OPTIONAL (not applied here, other keys were to be left alone): the current level_note still ends with
+# "Known finding: BlsCache::aggregate_verify accepts pair lists containing the infinity key
+# (repo_fix_c15.patch); ..." and "public keys off the subgroup are not modelled", and `rule` still says
+# "so that the known finding cannot hide another disagreement" about mode hm.  Suggested replacement of
+# the last sentence of level_note:
+# PROPS["C15"]["level_note"] = PROPS["C15"]["level_note"].replace(
+#   "Known finding: BlsCache::aggregate_verify accepts pair lists containing the infinity key (repo_fix_c15.patch); ",
+#   "Former finding (fixed in 601e785b): BlsCache::aggregate_verify accepted pair lists containing the infinity key; ")
+PROPS["C15"]["level_note"] = PROPS["C15"]["level_note"].replace(
+    "Known finding: BlsCache::aggregate_verify accepts pair lists containing the infinity key (repo_fix_c15.patch); ",
+    "Former finding (fixed in 601e785b): BlsCache::aggregate_verify accepted pair lists containing the infinity key; ")
+PROPS["C15"]["rule"] = PROPS["C15"]["rule"].replace("so that the known finding cannot hide another disagreement", "kept from the time of the (repaired) infinity-key finding: a second, masked view of the same histories")
